@@ -140,7 +140,9 @@ def run_path(spec, fnode, script):
       for p_, _s in list(spec.params) + list(spec.free):
         if p_ not in spec.assigns:
           penv.set(p_, old_env.lookup(p_))
-      if spec.returns is not None:
+      if spec.returns is ANY:
+        pass
+      elif spec.returns is not None:
         res = ex.coerce(res, spec.returns)
       elif ex.deref(res) is not NONEV:
         raise OutsideSubset(f'{spec.target} returns a value but the contract declares none')
